@@ -30,7 +30,7 @@ func C06(v *View) []Violation {
 				continue
 			}
 			pvc, _ := c.Obj.(*v1.PersistentVolumeClaim)
-			if c.OK() || c.Err == "AlreadyExists" {
+			if c.Applied || c.OK() || c.Err == "AlreadyExists" {
 				claims[c.Name] = true
 			}
 			if pvc != nil {
